@@ -425,7 +425,7 @@ def ssl2_large_records():
     """concrete: SSL 2.0 records whose body needs more than 14 bits of length (two-byte header: 15-bit length)"""
     from cryptoparser.tls.record import SslRecord  # pylint: disable=import-outside-toplevel
     problems = []
-    for count in (5, 5461, 5462, 10000, 10922):
+    for count in (5, 5461, 5462, 10000, 10914):
         wire = ref.ssl2_client_hello(0x0002, [0x010080] * count, b'', bytes(range(16)))
         try:
             record = SslRecord.parse_exact_size(wire)
